@@ -40,6 +40,7 @@ class Job:
         self.nondet_static = kw.pop('nondet_static', False)
         self.expected = list(kw.pop('expected', []))   # obligations whose FAILURE is the documented behaviour (e.g. a documented throw): they MUST fail
         self.dfcc = kw.pop('dfcc', True)            # contract jobs: False = check the same requires/ensures by a generated assume/call/assert harness (no --dfcc write-set instrumentation, no frame check) - for pointer-heavy code where --dfcc does not close
+        self.unwind_files = dict(kw.pop('unwind_files', {}))   # {substring of the loop's source file or loop id: bound} -> --unwindset for exactly those loops
         self.optional = kw.pop('optional', False)   # an attempt: a timeout is reported as undecided in the evidence but does not fail the check
         if kw:
             raise TypeError('unknown job options %r' % kw)
